@@ -75,7 +75,29 @@ pub const CONTEXTS: &[Ctx1] = &[
     cx!("(cons • (p K))"),
     cx!("(gid •)"),
     Ctx1 { tmpl: "(eval '•)", binds: &[], closes: true },
+    // ---- extended contexts (index >= CORE_CONTEXTS): enumerated to one depth less than the core ones
+    cx!("`(K `(K ,(K ,•)))"),
+    cx!("(case K ((1 2 3 4 5 6 7 8 9 10 11 12 13 14 15 16 17 18 19 20) => (lambda (x) (list 'c x •))) (else 'other))", &[("x", Kind::Int)]),
+    cx!("(cond (K (p K) •))"),
+    cx!("(map (lambda (v w) (list v w •)) (list K K) (list K K K))", &[("w", Kind::Int), ("v", Kind::Int)]),
+    cx!("(for-each (lambda (v w) (p (+ v w)) •) (list K K) (list K K))", &[("w", Kind::Int), ("v", Kind::Int)]),
+    cx!("(let () (define v K) (p v) •)", &[("v", Kind::Int)]),
+    cx!("(let* () •)"),
+    cx!("(let ((pr (delay (begin (p K) •)))) (list (force pr) (force pr)))", &[("pr", Kind::Hidden)]),
+    cx!("(apply map list (list (list K K) (list • K)))"),
+    cx!("(let lp ((i 0) (acc '())) (if (< i 2) (lp (+ i 1) (cons • acc)) acc))", &[("lp", Kind::Proc), ("acc", Kind::List), ("i", Kind::Int)]),
+    cx!("(and • (p K))"),
+    cx!("(or • (p K))"),
+    cx!("(and K K •)"),
+    cx!("(when • (p K))"),
+    cx!("(unless • (p K))"),
+    cx!("(if • (p K))"),
+    cx!("(begin (set! g •) g)"),
+    // closures created by the iterations of a procedure that tail-calls itself each see their own iteration's variables
+    cx!("((lambda () (define (lp i acc) (if (= i 2) acc (lp (+ i 1) (cons (lambda () (list i •)) acc)))) (map (lambda (t) (t)) (lp 0 '()))))", &[("lp", Kind::Proc), ("acc", Kind::List), ("i", Kind::Int)]),
 ];
+/// The first CORE_CONTEXTS contexts are the ones the other checks (C03, C12, C13) also enumerate.
+pub const CORE_CONTEXTS: usize = 43;
 
 /// Leaves: '@1' innermost visible local, '@2' the next one (different name), '@i' innermost integer local.
 pub const LEAVES: &[&str] = &[
@@ -97,6 +119,8 @@ pub const LEAVES: &[&str] = &[
     "`(q ,@1)",
     "`#(q ,@1)",
     "`(q . ,@1)",
+    "`(q ,@1 . \"tl\")",
+    "`(,@1 . tl-sym)",
     "(gfix K K)",
     "(gvar K K K)",
     "(apply gvar K (list K))",
@@ -113,17 +137,26 @@ pub const LEAVES: &[&str] = &[
 pub const PREAMBLE: &str = "(define (p x) (display x) x) (define (gfix a b) (list a b)) (define (gvar a . r) (list a r)) (define (gid x) x)";
 
 pub fn chain_space(depth: u32) -> u64 {
-    (CONTEXTS.len() as u64).pow(depth) * LEAVES.len() as u64
+    chain_space_n(depth, CORE_CONTEXTS)
+}
+
+pub fn chain_space_n(depth: u32, nctx: usize) -> u64 {
+    (nctx as u64).pow(depth) * LEAVES.len() as u64
 }
 
 /// Build the program for chain index `i` at exactly `depth` contexts. None if a placeholder has no referent.
-pub fn chain_program(mut i: u64, depth: u32) -> Option<String> {
+pub fn chain_program(i: u64, depth: u32) -> Option<String> {
+    chain_program_n(i, depth, CORE_CONTEXTS)
+}
+
+/// Same over the first `nctx` contexts.
+pub fn chain_program_n(mut i: u64, depth: u32, nctx: usize) -> Option<String> {
     let leaf = LEAVES[(i % LEAVES.len() as u64) as usize];
     i /= LEAVES.len() as u64;
     let mut ctxs = vec![];
     for _ in 0..depth {
-        ctxs.push(&CONTEXTS[(i % CONTEXTS.len() as u64) as usize]);
-        i /= CONTEXTS.len() as u64;
+        ctxs.push(&CONTEXTS[(i % nctx as u64) as usize]);
+        i /= nctx as u64;
     }
     // ctxs[0] is the outermost
     let mut visible: Vec<(&str, Kind)> = vec![]; // innermost first
@@ -444,21 +477,42 @@ fn run_session_case(st: &mut St, acc: &mut Acc, idxs: &[usize], suffix: Option<u
     }
 }
 
+/// Programs whose variables are spelled like the temporaries and the free identifiers of the prelude's derived-form
+/// macros. The generators above use names that none of these macros mentions, so the capture can only show here.
+pub const HYGIENE_PROBES: &[&str] = &[
+    "(let ((var1 5)) (or #f var1))",
+    "(let ((temp 5)) (cond ((car '(#f)) => list) (else temp)))",
+    "(let ((temp 7)) (cond (1 => (lambda (x) (list x temp)))))",
+    "(let ((temp 5)) (cond (#f) (else temp)))",
+    "(let ((atom-key 5)) (case (+ 1 1) ((2) atom-key) (else 0)))",
+    "(let ((not (lambda (x) x))) (unless #f 'ran))",
+    "(let ((memv (lambda (a b) #f))) (case 1 ((1) 'one) (else 'other)))",
+    "(let ((make-promise list)) (force (delay 5)))",
+    "(let ((begin 5)) (when #t 1 2))",
+    // controls: the same shapes with names no macro mentions
+    "(let ((x 5)) (or #f x))",
+    "(let ((t 7)) (cond (1 => (lambda (x) (list x t)))))",
+    "(let ((k 5)) (case (+ 1 1) ((2) k) (else 0)))",
+];
+
 pub fn run(ctx: &Ctx) -> i32 {
     start_watchdog("C01", 60);
     let mut rep = Report::new("model_checking");
     let max_depth = std::env::var("C01_DEPTH").ok().and_then(|s| s.parse().ok()).unwrap_or(ctx.tier.pick(3u32, 4u32));
     let mut acc = Acc::new();
     let mut programs = 0u64;
+    assert!(CONTEXTS[CORE_CONTEXTS - 1].closes && CONTEXTS.len() > CORE_CONTEXTS, "CORE_CONTEXTS must end at the eval context");
     for d in 0..=max_depth {
-        let n = chain_space(d);
+        // all contexts below the maximal depth, the core ones at the maximal depth
+        let nctx = if d < max_depth { CONTEXTS.len() } else { CORE_CONTEXTS };
+        let n = chain_space_n(d, nctx);
         let stride_fresh = if d <= 1 { 1 } else if d == 2 { ctx.tier.pick(11, 1) } else { 0 };
         let a = par_fold(
             n,
             512,
             || St { pair: None, busy: None, busy_used: 0 },
             |st, acc, i| {
-                if let Some(p) = chain_program(i, d) {
+                if let Some(p) = chain_program_n(i, d, nctx) {
                     let fresh = stride_fresh != 0 && i % stride_fresh == 0;
                     run_chain(st, acc, &p, d, i, d <= 2, fresh);
                     if i % 400_009 == 13 || (d == 2 && i % 9973 == 1) {
@@ -499,12 +553,41 @@ pub fn run(ctx: &Ctx) -> i32 {
         );
         acc = Acc::merge(acc, a);
     }
+    // D. hygiene probes
+    {
+        let mut st = St { pair: None, busy: None, busy_used: 0 };
+        let _ = &mut st;
+        for text in HYGIENE_PROBES {
+            acc.evals += 1;
+            let forms = vec![parse_forms(text).unwrap().remove(0)];
+            let mut p = fresh_pair("");
+            let run = run_session_on(&mut p.m, &mut p.im, &forms);
+            match &run.verdict {
+                Verdict::Agree => {
+                    acc.nontrivial += 1;
+                    acc.outcome("hygiene-probe-agrees");
+                }
+                Verdict::Excluded(_, why) => {
+                    acc.count("excluded_by_model", 1);
+                    acc.outcome(&format!("excluded: {}", why));
+                }
+                Verdict::Mismatch { form, expected, observed, what } => {
+                    acc.violation(Violation {
+                        key: format!("hygiene:{}", text),
+                        class: Some("macro-hygiene".into()),
+                        observed: if observed.starts_with("panic") { "panic".into() } else if observed.starts_with("error") { "error".into() } else { format!("wrong-{}", what) },
+                        detail: json!({"session": [text], "form_index": form, "expected": expected, "observed": observed}),
+                    });
+                }
+            }
+        }
+    }
     let val = crate::pinned::validate_model();
     rep.states = Some(acc.evals);
     rep.transitions = Some(acc.evals * 3);
     rep.traces_validated = Some(acc.nontrivial + val.forms_agreeing);
     rep.rule = format!(
-        "A. every chain of <= {} one-hole contexts ({} contexts: operand positions, fixed/variadic/rest lambdas, apply, let/let*/letrec/named let, begin, if, cond (else, =>, test-only), case (clause, key, else =>), and/or/when/unless, quasiquote (list, vector, nested, cdr), delay/force, internal defines, set!, map/for-each callbacks, call/cc (return, escape), returned closure, constructors, global procedure, eval) around each of {} leaves (constants of every data kind, innermost/outer local, global, set!-then-read of local/global, immediate closure, let rebinding, quasiquote templates over a local, fixed/variadic/apply calls of globals, a logging call, five failures) = {} programs, each run as the session (define g 100); program; g on the real VM and on the reference CEK machine and compared form by form (value or failure, display/write output); B. every sequence of <= {} of the {} top-level forms over globals g h f (definitions, redefinitions, set!, late-bound procedure bodies, calls) = {} sessions, renamed apart inside a shared VM and (length <= 3) verbatim in a fresh VM; C. every chain program of depth <= 2 also runs in a VM that first evaluated 60 unrelated globals, 5 macros, garbage and a collection, and (all of depth <= 1, every {}th of depth 2) twice in fresh VMs; all observations must be equal. Non-trivial = a program or session on which model and implementation agreed on every form (programs the model excludes - R7RS prescribes no outcome - are counted separately).",
+        "A. every chain of <= {} one-hole contexts ({} contexts, the 18 extended ones - nested quasiquote, case =>, multi-expression cond clause, multi-list map / for-each, let with internal define, empty let*, a promise forced twice, apply of map, accumulating named let, and / or / when / unless / one-armed if with the hole as a non-final operand or test, set! of a global - only below the maximal depth: operand positions, fixed/variadic/rest lambdas, apply, let/let*/letrec/named let, begin, if, cond (else, =>, test-only), case (clause, key, else =>), and/or/when/unless, quasiquote (list, vector, nested, cdr), delay/force, internal defines, set!, map/for-each callbacks, call/cc (return, escape), returned closure, constructors, global procedure, eval) around each of {} leaves (constants of every data kind, innermost/outer local, global, set!-then-read of local/global, immediate closure, let rebinding, quasiquote templates over a local, fixed/variadic/apply calls of globals, a logging call, five failures) = {} programs, each run as the session (define g 100); program; g on the real VM and on the reference CEK machine and compared form by form (value or failure, display/write output); B. every sequence of <= {} of the {} top-level forms over globals g h f (definitions, redefinitions, set!, late-bound procedure bodies, calls) = {} sessions, renamed apart inside a shared VM and (length <= 3) verbatim in a fresh VM; D. twelve programs whose variables are spelled like the temporaries (var1, temp, atom-key) and free identifiers (not, memv, make-promise, begin) of the prelude's derived-form macros, with controls; C. every chain program of depth <= 2 also runs in a VM that first evaluated 60 unrelated globals, 5 macros, garbage and a collection, and (all of depth <= 1, every {}th of depth 2) twice in fresh VMs; all observations must be equal. Non-trivial = a program or session on which model and implementation agreed on every form (programs the model excludes - R7RS prescribes no outcome - are counted separately).",
         max_depth, CONTEXTS.len(), LEAVES.len(), programs, max_len, SESSION_FORMS.len(), sessions, ctx.tier.pick(11, 1)
     );
     rep.extra("chain_programs_enumerated", json!(programs));
